@@ -357,6 +357,23 @@ func judgeG(g *gRepo, w *mWorld, before, after obs, o op, err error, col *evid.C
 	return judge(g.backend(), w, before, after, o, err, col, "G")
 }
 
+// errPanic wraps a panic of the code under test. A crash of an API call is
+// not a C12 matter (the refs/log invariant is still evaluated on what the
+// crashed call left behind); it is counted, classified and noted for triage.
+type errPanic struct{ msg string }
+
+func (e errPanic) Error() string { return "PANIC in the code under test: " + e.msg }
+
+func runRecovered(f func() error, col *evid.Collector) (err error) {
+	defer func() {
+		if r := recover(); r != nil {
+			col.Inc("api_panics")
+			err = errPanic{fmt.Sprint(r)}
+		}
+	}()
+	return f()
+}
+
 type gNode struct {
 	dir  string
 	o    obs
@@ -373,7 +390,7 @@ func stepG(n gNode, w *mWorld, o op, col *evid.Collector) (*gRepo, obs, verdict,
 		return nil, obs{}, verdict{}, err
 	}
 	rsl.ResetCacheForVerif()
-	opErr := o.runG(g.repo)
+	opErr := runRecovered(func() error { return o.runG(g.repo) }, col)
 	after := observe(g.v)
 	col.Inc("transitions")
 	col.Inc("evaluations")
@@ -386,6 +403,14 @@ func stepG(n gNode, w *mWorld, o op, col *evid.Collector) (*gRepo, obs, verdict,
 	cls := errClass(opErr)
 	if errors.Is(opErr, gittuf.ErrUnauthorizedKey) {
 		cls = "refused:unauthorized-key"
+	}
+	var ep errPanic
+	if errors.As(opErr, &ep) {
+		cls = "PANIC:" + ep.msg
+		if len(cls) > 70 {
+			cls = cls[:70]
+		}
+		col.Note("not a C12 matter, for triage: lane G operation %s after %v panics: %s", o.Name, n.path, ep.msg)
 	}
 	col.Class("G/%s%s/%s", kindOf(o.Name), signer, cls)
 	vd := judgeG(g, w, n.o, after, o, opErr, col)
@@ -501,6 +526,6 @@ func replayG(t *testing.T, r replay, col *evid.Collector) {
 			col.Violation(vd.sig, vd.what, replay{Lane: "G", Start: r.Start, Ops: r.Ops[:i+1]})
 			return
 		}
-		n = gNode{dir: g.dir, o: after}
+		n = gNode{dir: g.dir, o: after, path: r.Ops[:i+1]}
 	}
 }
